@@ -7,7 +7,7 @@ Model of mesa/visualization  (property C20)
   solara_viz.py             _check_model_params, split_model_params, check_param_is_fixed,
                             the call of the check in ModelCreator
 
-The model follows the code after the `fix:` commits V3, V5, V6, V8, V9, P1, P2 (known_findings.d/C20.txt);
+The model follows the code after the `fix:` commits V3, V5, V6, V8, V9, V10, V11, P1, P2 (known_findings.d/C20.txt);
 V7 is open, the model follows the defective code there (`scatter` answers `Index`).
 
 Values of a portrayal are opaque tokens (`String`): colour names, marker symbols, decimal integers.
@@ -259,7 +259,7 @@ deriving DecidableEq, Repr
 def optionalOk (n k : Nat) : Bool := k == 0 || k == n
 
 /-- `_scatter(ax, arguments)`: one scatter call per (marker, zorder) pair of the distinct markers and the
-    distinct z-orders, each with the agents selected by the two masks -/
+    distinct z-orders that selects at least one agent (fix V11), with the agents selected by the two masks -/
 def scatter (es : List Entry) : Except Err (List Group) :=
   if es.isEmpty then .ok []                      -- fix V5: nothing to plot
   else if !(optionalOk es.length (edgecolorss es).length && optionalOk es.length (linewidthss es).length
@@ -267,8 +267,9 @@ def scatter (es : List Entry) : Except Err (List Group) :=
   else
     let marks := (es.map (·.marker)).eraseDups
     let zs := (es.map (·.zorder)).eraseDups
-    .ok (marks.flatMap fun m => zs.map fun z =>
-      { marker := m, zorder := z, members := es.filter fun e => e.marker == m && e.zorder == z })
+    .ok ((marks.flatMap fun m => zs.map fun z =>
+      { marker := m, zorder := z, members := es.filter fun e => e.marker == m && e.zorder == z : Group }).filter
+        fun g => !g.members.isEmpty)
 
 /-! ## draw_space -/
 
